@@ -130,7 +130,13 @@ fn mentioned_vars(stmts: &[syn::Stmt], extra: Option<&syn::Expr>) -> Vec<String>
 
 /// does the expression contain anything that leaves it other than by producing its value?
 fn has_escape(e: &syn::Expr) -> bool {
-    struct V(bool);
+    has_escape_opt(e, false)
+}
+
+/// `allow_try`: in a function returning `Result`, `?` only ever propagates an `Err` through the monad, which a joined
+/// value (itself a `Res`) does too - it is not a jump that the join would lose
+fn has_escape_opt(e: &syn::Expr, allow_try: bool) -> bool {
+    struct V(bool, bool);
     impl<'ast> syn::visit::Visit<'ast> for V {
         fn visit_expr_return(&mut self, _r: &'ast syn::ExprReturn) {
             self.0 = true;
@@ -141,15 +147,18 @@ fn has_escape(e: &syn::Expr) -> bool {
         fn visit_expr_continue(&mut self, _r: &'ast syn::ExprContinue) {
             self.0 = true;
         }
-        fn visit_expr_try(&mut self, _r: &'ast syn::ExprTry) {
-            self.0 = true;
+        fn visit_expr_try(&mut self, r: &'ast syn::ExprTry) {
+            if !self.1 {
+                self.0 = true;
+            }
+            syn::visit::visit_expr_try(self, r);
         }
         fn visit_macro(&mut self, _m: &'ast syn::Macro) {
             self.0 = true;
         }
         fn visit_expr_closure(&mut self, _c: &'ast syn::ExprClosure) {}
     }
-    let mut v = V(false);
+    let mut v = V(false, allow_try);
     syn::visit::Visit::visit_expr(&mut v, e);
     v.0
 }
